@@ -1043,3 +1043,53 @@ Example C08_reach7_inhabited :
       /\ mf_case (m_parse "file:/x/y/z") (m_parse "file:x") "../../x" = true
       /\ mf_case (m_parse "file://localhost/a/b#x") (m_parse "file:///a/b") "" = true).
 Proof. split; [exact abs_reach7_example | exact rel_reach7_example]. Qed.
+
+(* ================= 10. the STANDARD-side reading of containment for FILE bases (path-relative references) ================= *)
+(* Beside section 8 (which excludes file bases): base record a file URL whose path does not END in a normalized drive
+   letter; reference (after the Standard's cleaning) without scheme, first character not '/', '\', '?', '#', not starting
+   with a Windows drive letter - the "otherwise" branch of the Standard's file state (host and path of the base,
+   shorten, path state).  ('?q', '#f' and the empty reference against a file base: C08_std_simple.) *)
+From RU Require Import Proofs.C01_EqApi Proofs.C01_EqSpSpec Proofs.C01_EqFileBase Proofs.C08_StdFile.
+Open Scope N_scope.
+
+(* 10.1 on the Standard alone: the parser succeeds and scheme, username, password, host, port of the result are the
+   base's - for every host parser (none is called) *)
+Theorem C08_std_contain_file : forall shp input sb, spec_valid sb -> has_opaque_path sb = false ->
+  list_eqb (su_scheme sb) str_file = true -> last_not_nwdl (Whatwg.path_segments sb) = true ->
+  std_file_rel_pre (spec_clean input) = true ->
+  exists su, spec_basic_url_parse shp input (Some sb) = BDone su /\ spec_same_front sb su.
+Proof. exact std_contain_file. Qed.
+Check C08_std_contain_file : forall shp input sb, spec_valid sb -> has_opaque_path sb = false ->
+  list_eqb (su_scheme sb) str_file = true -> last_not_nwdl (Whatwg.path_segments sb) = true ->
+  (match spec_scheme (spec_clean input) with None => true | Some _ => false end
+   && match spec_clean input with
+      | c :: _ => negb (is_sl c) && negb (c =? 63) && negb (c =? 35)
+                  && negb (starts_with_windows_drive_letter (spec_clean input))
+      | [] => false
+      end) = true ->
+  exists su, spec_basic_url_parse shp input (Some sb) = BDone su
+    /\ su_scheme su = su_scheme sb /\ su_username su = su_username sb /\ su_password su = su_password sb
+    /\ su_host su = su_host sb /\ su_port su = su_port sb.
+Print Assumptions C08_std_contain_file.
+
+(* 10.2 the crate's join agrees: for a related pair (b, sb) and a reference in C01's class in_class_file_rel_path
+   (file base with a host field and a non-empty path not ending in a normalized drive letter; the reference as in 10.1
+   and the path loop on it inside fpath_ok / strip_stable - no ".." on a drive-letter-shaped last segment, no drive
+   letter becoming the first segment, leading-slash collapse harmless): the Standard succeeds keeping the front, and the
+   model answers Overflow (then the Standard's href is beyond u32::MAX) or a record related to the Standard's result
+   (same ten API strings / serialization), a full_base pair again, whose API strings protocol, username, password, host,
+   hostname, port are those of the base.  NO hypothesis on the host functions *)
+Theorem C08_std_contain_file_agree : forall dbg hp hpo hd shp shs b sb input,
+  usv_list input -> related dbg shs b sb -> spec_base_ok sb = true -> in_class_file_rel_path sb input = true ->
+  exists su, spec_basic_url_parse shp input (Some sb) = BDone su /\ spec_same_front sb su
+    /\ ((join dbg hp hpo hd b input = PErr Overflow /\ U32_MAX_P < nlen (get_href shs su))
+        \/ exists u', join dbg hp hpo hd b input = POk u' /\ related dbg shs u' su /\ full_base dbg shs u' su
+                      /\ option_map api_front (api_of_model dbg u') = option_map api_front (api_of_model dbg b)).
+Proof. exact std_contain_file_agree. Qed.
+Print Assumptions C08_std_contain_file_agree.
+(* non-vacuity: against the parse results (model / Standard) of file://h.x/tmp/dir/x?q#f the references y, a/../b?k#g,
+   ../../../up, ./z/ and " s\t" are in the class; both parsers succeed, the Standard's result keeps scheme and host, its
+   href is the model's serialization *)
+Example C08_std_contain_file_inhabited :
+  std_file_case (B "file://h.x/tmp/dir/x?q#f") [B "y"; B "a/../b?k#g"; B "../../../up"; B "./z/"; B " s\t"] = true.
+Proof. exact std_contain_file_inhabited. Qed.
